@@ -384,7 +384,7 @@ class ADTVal:
 
 
 class Ctor:
-  def __init__(self, name, fields=(), pytypes=(), payload=None, is_const=None):
+  def __init__(self, name, fields=(), pytypes=(), payload=None, is_const=None, tuple_like=False):
     """fields: [(name, Sort or 'SELF')]; pytypes: names of Python classes whose isinstance
     test is true for values built by this constructor; payload: field name carrying the plain
     Python value (for wrapper constructors such as FStr(s)) or None for object-like
@@ -392,6 +392,7 @@ class Ctor:
     constructor denotes (e.g. None, Ellipsis) for `is` tests."""
     self.name, self.fields, self.pytypes, self.payload = name, list(fields), tuple(pytypes), payload
     self.is_const = is_const
+    self.tuple_like = tuple_like  # a python tuple whose items are the fields, in order
 
 
 class Union(Sort):
